@@ -140,8 +140,10 @@ pub fn render_doc(d: &Doc) -> (String, BTreeMap<String, usize>) {
         Format::Cram => {
             lines.push(format!("Document {}", d.path));
             lines.push("".into());
-            for t in &d.tests {
-                lines.push(t.title.clone());
+            for (k, t) in d.tests.iter().enumerate() {
+                if !d.compact || k == 0 {
+                    lines.push(t.title.clone());
+                }
                 for (i, l) in t.expr.split('\n').enumerate() {
                     if i == 0 {
                         at.insert(t.nonce.clone(), lines.len() + 1);
@@ -156,7 +158,12 @@ pub fn render_doc(d: &Doc) -> (String, BTreeMap<String, usize>) {
                 if let Some(c) = t.expected_code {
                     lines.push(format!("  [{}]", c));
                 }
-                lines.push("".into());
+                if !d.compact || k + 1 == d.tests.len() {
+                    lines.push("".into());
+                }
+            }
+            if d.compact {
+                lines.push("the block is not the end of the file".into());
             }
         }
     }
@@ -228,8 +235,10 @@ pub fn run_cli(sc: &Scenario, renderer: &str) -> Observation {
     };
     let rootp = root.path().to_path_buf();
     let doc_root = rootp.join("docs");
-    let tmp_root = rootp.join("tmp");
-    let work = rootp.join("work");
+    // (a function of the scenario: every third one has blanks and a quote in these names)
+    let odd_names = sc.sim.seed % 3 == 0;
+    let tmp_root = rootp.join(if odd_names { "t m'p" } else { "tmp" });
+    let work = rootp.join(if odd_names { "wo rk" } else { "work" });
     let _ = std::fs::create_dir_all(&doc_root);
     let _ = std::fs::create_dir_all(&tmp_root);
     if sc.cli.work_directory {
@@ -477,6 +486,7 @@ pub fn run_cli(sc: &Scenario, renderer: &str) -> Observation {
     if renderer == "json" && !update && obs.exit_status != Some(1) && obs.exit_status.is_some() && obs.sim_abort.is_none() {
         match serde_json::from_str::<serde_json::Value>(&obs.stdout) {
             Ok(serde_json::Value::Array(items)) => {
+                let mut cursor: BTreeMap<usize, usize> = BTreeMap::new();
                 for it in items {
                     let loc = it.get("location").and_then(|l| l.as_str()).unwrap_or("");
                     let title = it
@@ -487,9 +497,22 @@ pub fn run_cli(sc: &Scenario, renderer: &str) -> Observation {
                     let report = it.get("result").map(report_from_json).unwrap_or(Report::Internal);
                     let di = mains.iter().find(|&&di| info.doc_path[&sc.docs[di].path] == loc).copied();
                     let mut placed = false;
+                    // (a failed test case also comes with its expression, which names it too)
+                    let expr = it.get("testcase").and_then(|t| t.get("shell_expression")).and_then(|t| t.as_str()).unwrap_or("");
                     if let Some(di) = di {
                         if let Some(dobs) = by_doc.get_mut(&di) {
-                            if let Some(t) = dobs.tests.iter_mut().find(|t| title.contains(&t.nonce)) {
+                            let mut idx = dobs.tests.iter().position(|t| title.contains(&t.nonce) || expr.contains(&t.nonce));
+                            // untitled test cases of a one-block Cram document: by position
+                            if idx.is_none() && sc.docs[di].compact && title.is_empty() {
+                                let next = cursor.get(&di).map(|c| c + 1).unwrap_or(0);
+                                if next < dobs.tests.len() {
+                                    idx = Some(next);
+                                }
+                            }
+                            if let Some(i) = idx {
+                                cursor.insert(di, i);
+                            }
+                            if let Some(t) = idx.map(|i| &mut dobs.tests[i]) {
                                 t.results += 1;
                                 if t.results == 1 {
                                     t.report = report.clone();
